@@ -111,8 +111,15 @@ func checkC13(c *Ctx) *core.Result {
 		a.Const("xss.flagData"): "xss.st.data", a.Const("xss.flagNoQuote"): "xss.st.beforeAttrName", a.Const("xss.flagSingle"): "xss.st.valueSingle",
 		a.Const("xss.flagDouble"): "xss.st.valueDouble", a.Const("xss.flagBack"): "xss.st.valueBack"}
 	paths, err := ssax.EnumeratePaths(root, 500)
+	loopForm := false
 	if err != nil {
-		r.Fail("X1", core.QualName(root), "path enumeration", p.Pos(root.Pos()), err.Error())
+		// not a straight-line disjunction: accept the loop over a constant list of contexts
+		if x1LoopForm(c, r, root, ctx, specFlags) {
+			loopForm = true
+			paths = nil
+		} else {
+			r.Fail("X1", core.QualName(root), "path enumeration", p.Pos(root.Pos()), err.Error())
+		}
 	}
 	for pi, path := range paths {
 		type ev struct {
@@ -215,7 +222,7 @@ func checkC13(c *Ctx) *core.Result {
 			}
 		}
 	}
-	if len(paths) < 6 {
+	if len(paths) < 6 && !loopForm {
 		r.Fail("vacuity", core.QualName(root), "paths", p.Pos(root.Pos()), fmt.Sprintf("%d paths through IsXSS", len(paths)))
 	}
 
@@ -421,76 +428,93 @@ func checkC15(c *Ctx) *core.Result {
 			continue
 		}
 		nTrue++
-		facts := ssax.Facts(ret.Block())
-		tt, ok := tokenTypeFact(facts)
 		expr := "return " + v.String()
-		if _, isConst := ssax.ConstBool(v); !isConst {
-			r.Fail("Y1", core.QualName(ctx), expr, p.Pos(ret.Pos()), "non-constant verdict returned from the classifier (undecided)")
-			continue
+		// one judgement per way of reaching the return block (a shared `return true`
+		// behind `case A, B:` or `a || b` has one predecessor per disjunct)
+		factSets := [][]ssax.Fact{ssax.Facts(ret.Block())}
+		if len(ret.Block().Preds) > 1 {
+			factSets = nil
+			for _, pb := range ret.Block().Preds {
+				fs := ssax.Facts(pb)
+				if iff, ok := pb.Instrs[len(pb.Instrs)-1].(*ssa.If); ok && pb.Succs[0] != pb.Succs[1] {
+					fs = append(fs, ssax.ExpandCond(iff.Cond, pb.Succs[0] == ret.Block())...)
+				}
+				factSets = append(factSets, fs)
+			}
 		}
-		if !ok {
-			r.Fail("Y1", core.QualName(ctx), expr, p.Pos(ret.Pos()), "a positive verdict that is not conditional on the token type")
-			continue
-		}
-		name, okT := allowed[tt]
-		if !okT {
-			r.Fail("Y1", core.QualName(ctx), expr+fmt.Sprintf(" under tokenType==%d", tt), p.Pos(ret.Pos()), "a positive verdict on a token type that needs neither '<' nor '=' (only DocType, TagNameOpen, TagComment and AttrValue-with-classified-attribute may fire)")
-			continue
-		}
-		if tt != tVal {
-			r.OK("Y1", core.QualName(ctx), expr+" under "+name, p.Pos(ret.Pos()), "")
-			continue
-		}
-		// AttrValue: needs attr ≠ None, with attr a proper attribute-kind variable
-		good := false
-		why := "no test of the attribute kind on this path"
-		for _, f := range facts {
-			bo, ok := f.Cond.(*ssa.BinOp)
-			if !ok || bo.Op != token.EQL {
+		for fsi, facts := range factSets {
+			if len(factSets) > 1 {
+				expr = fmt.Sprintf("return %s (way %d of %d)", v.String(), fsi+1, len(factSets))
+			}
+			tt, ok := tokenTypeFact(facts)
+			if _, isConst := ssax.ConstBool(v); !isConst {
+				r.Fail("Y1", core.QualName(ctx), expr, p.Pos(ret.Pos()), "non-constant verdict returned from the classifier (undecided)")
 				continue
 			}
-			k, okk := ssax.ConstInt(bo.Y)
-			if !okk {
+			if !ok {
+				r.Fail("Y1", core.QualName(ctx), expr, p.Pos(ret.Pos()), "a positive verdict that is not conditional on the token type")
 				continue
 			}
-			if a.loadsField(bo.X, "xss.state.tokenType") {
+			name, okT := allowed[tt]
+			if !okT {
+				r.Fail("Y1", core.QualName(ctx), expr+fmt.Sprintf(" under tokenType==%d", tt), p.Pos(ret.Pos()), "a positive verdict on a token type that needs neither '<' nor '=' (only DocType, TagNameOpen, TagComment and AttrValue-with-classified-attribute may fire)")
 				continue
 			}
-			var consts []*ssa.Const
-			var calls []*ssa.Call
-			if !attrLeaves(bo.X, map[ssa.Value]bool{}, &consts, &calls) {
-				why = "the tested value " + bo.X.Name() + " is not the attribute-kind variable (its definitions are not {None, attribute predicate})"
+			if tt != tVal {
+				r.OK("Y1", core.QualName(ctx), expr+" under "+name, p.Pos(ret.Pos()), "")
 				continue
 			}
-			if (f.True && k != attrNone) || (!f.True && k == attrNone) {
-				// Y3 on this variable
-				y3 := true
-				for _, cst := range consts {
-					if cv, _ := ssax.ConstInt(cst); cv != attrNone {
+			// AttrValue: needs attr ≠ None, with attr a proper attribute-kind variable
+			good := false
+			why := "no test of the attribute kind on this path"
+			for _, f := range facts {
+				bo, ok := f.Cond.(*ssa.BinOp)
+				if !ok || bo.Op != token.EQL {
+					continue
+				}
+				k, okk := ssax.ConstInt(bo.Y)
+				if !okk {
+					continue
+				}
+				if a.loadsField(bo.X, "xss.state.tokenType") {
+					continue
+				}
+				var consts []*ssa.Const
+				var calls []*ssa.Call
+				if !attrLeaves(bo.X, map[ssa.Value]bool{}, &consts, &calls) {
+					why = "the tested value " + bo.X.Name() + " is not the attribute-kind variable (its definitions are not {None, attribute predicate})"
+					continue
+				}
+				if (f.True && k != attrNone) || (!f.True && k == attrNone) {
+					// Y3 on this variable
+					y3 := true
+					for _, cst := range consts {
+						if cv, _ := ssax.ConstInt(cst); cv != attrNone {
+							y3 = false
+							why = fmt.Sprintf("the attribute kind can be the constant %d without an attribute name having been classified", cv)
+						}
+					}
+					for _, call := range calls {
+						tt2, ok := tokenTypeFact(ssax.Facts(call.Block()))
+						if !ok || tt2 != tName {
+							y3 = false
+							why = "the attribute predicate feeding the attribute kind is applied to a token that is not an attribute name"
+						}
+					}
+					if len(consts) == 0 {
 						y3 = false
-						why = fmt.Sprintf("the attribute kind can be the constant %d without an attribute name having been classified", cv)
+						why = "the attribute kind has no None initial value"
+					}
+					if y3 {
+						good = true
 					}
 				}
-				for _, call := range calls {
-					tt2, ok := tokenTypeFact(ssax.Facts(call.Block()))
-					if !ok || tt2 != tName {
-						y3 = false
-						why = "the attribute predicate feeding the attribute kind is applied to a token that is not an attribute name"
-					}
-				}
-				if len(consts) == 0 {
-					y3 = false
-					why = "the attribute kind has no None initial value"
-				}
-				if y3 {
-					good = true
-				}
 			}
-		}
-		if good {
-			r.OK("Y1", core.QualName(ctx), expr+" under AttrValue ∧ attr≠None", p.Pos(ret.Pos()), "attr ∈ {None initially, predicate(AttrName token)}")
-		} else {
-			r.Fail("Y1", core.QualName(ctx), expr+" under AttrValue", p.Pos(ret.Pos()), "positive verdict on an attribute value without a classified attribute name: "+why)
+			if good {
+				r.OK("Y1", core.QualName(ctx), expr+" under AttrValue ∧ attr≠None", p.Pos(ret.Pos()), "attr ∈ {None initially, predicate(AttrName token)}")
+			} else {
+				r.Fail("Y1", core.QualName(ctx), expr+" under AttrValue", p.Pos(ret.Pos()), "positive verdict on an attribute value without a classified attribute name: "+why)
+			}
 		}
 	}
 	if nTrue < 5 {
@@ -611,4 +635,87 @@ func checkC15(c *Ctx) *core.Result {
 	r.Explanation = "E5 state-graph and verdict-site rules. Y1: every positive return of the per-context classifier is control-dependent on tokenType ∈ {DocType, TagNameOpen, TagComment, AttrValue}; under AttrValue additionally on attr ≠ None where attr's reaching definitions are exactly {None, attribute-predicate(AttrName token)}. Y3: attr is None on loop entry; the tokenizer state is fresh per context. Y2a: in the state graph every emitter of DocType/TagNameOpen/TagComment is unreachable from each start state once the tag-open state is removed, and every in-edge of tag-open is guarded by a found '<'. Y2b: after the first token an AttrValue emitter is reachable only through the before-attribute-value state, all of whose in-edges are guarded by an input byte == '=' (guard-origin analysis: the tested value is an input byte, a conversion of one, or the result of a helper returning one or a different constant). Together: without '<' and '=' no verdict site is reachable with its condition true."
 	r.Trusted = []string{"go/ssa", "state-graph extraction", "guard-origin analysis", "facts = conditions of edge-dominating branches with short-circuit expansion"}
 	return r
+}
+
+// x1LoopForm decides X1 when the API function loops over a constant list of
+// context flags: one call site of the classifier on (API input, list element),
+// the list holds exactly the context flags, a positive verdict returns true at
+// once (dominance), and a negative answer is given only after every entry was
+// tried (E3 with a ghost counter).  Reports its own obligations; returns false
+// when the function has neither this shape nor can be judged.
+func x1LoopForm(c *Ctx, r *core.Result, root, ctx *ssa.Function, specFlags map[int64]string) bool {
+	p := c.P
+	var calls []*ssa.Call
+	for _, b := range root.Blocks {
+		for _, ins := range b.Instrs {
+			if call, ok := ins.(*ssa.Call); ok {
+				if cal := call.Call.StaticCallee(); cal == ctx {
+					calls = append(calls, call)
+				} else if cal != nil && p.InModule(cal) {
+					return false
+				}
+			}
+		}
+	}
+	if len(calls) != 1 {
+		return false
+	}
+	call := calls[0]
+	var base *ssa.Alloc
+	argIdx := -1
+	inputOK := false
+	for i, arg := range call.Call.Args {
+		if b, _, ok := listElem(arg); ok {
+			base, argIdx = b, i
+		}
+		if prm, ok := arg.(*ssa.Parameter); ok && prm.Parent() == root {
+			inputOK = true
+		}
+	}
+	if base == nil {
+		return false
+	}
+	qn := core.QualName(root)
+	if inputOK {
+		r.OK("X1", qn, "every context is analysed on the API input", p.Pos(call.Pos()), "argument is the parameter")
+	} else {
+		r.Fail("X1", qn, "every context is analysed on the API input", p.Pos(call.Pos()), "a context is analysed on something other than the API input")
+	}
+	flags, why := constIntList(base)
+	if why != "" {
+		r.Fail("X1", qn, "context list is a constant list", p.Pos(call.Pos()), why+": undecided")
+		return true
+	}
+	seen := map[int64]bool{}
+	for _, f := range flags {
+		seen[f] = true
+	}
+	for fl := range specFlags {
+		expr := fmt.Sprintf("context flag %d is in the list of contexts", fl)
+		if seen[fl] {
+			r.OK("X1", qn, expr, p.Pos(call.Pos()), "")
+		} else {
+			r.Fail("X1", qn, expr, p.Pos(call.Pos()), "a context is no longer analysed: inputs that are only dangerous in that context are missed")
+		}
+	}
+	for _, f := range flags {
+		if _, ok := specFlags[f]; !ok {
+			r.Fail("X1", qn, fmt.Sprintf("list entry %d is a context flag", f), p.Pos(call.Pos()), "the list holds a value that is not one of the five context flags")
+		}
+	}
+	gateRule(p, r, root, ctx, "X1: a positive context verdict makes the API answer true")
+	env := newE3Env(c, r)
+	xr := &xssRoots{env: env}
+	triedAllRule(env, xr, r, "X1", root, ctx, argIdx, base, len(flags), "contexts")
+	for _, o := range mergeObs(xr.runs) {
+		if o.Rule != "X1" {
+			continue
+		}
+		if o.Bad == 0 {
+			r.OK(o.Rule, o.Fn, o.Expr, o.Pos, fmt.Sprintf("discharged in %d context(s)", o.OK))
+		} else {
+			r.Fail(o.Rule, o.Fn, o.Expr, o.Pos, o.Why)
+		}
+	}
+	return true
 }
